@@ -8,6 +8,7 @@ pub mod ideal {
     use vstd::std_specs::cmp::*;
     use core::cmp::Ordering;
     use super::fax::{i2f, f2i, fneg_spec, fabs_spec};
+    use super::fstd::{fclamp_spec, fmax_spec, fmin_spec, fconst_spec, frecip_spec, fmul_add_spec};
     pub uninterp spec fn R(x: f32) -> real;
     /// the real number an integer becomes when converted to f32 (`i as f32`).  Kept abstract (monotone, sign-preserving,
     /// 0 -> 0) in group a3: the conversion rounds, so `cvt(a) - cvt(b)` is NOT assumed equal to `cvt(a - b)` -- a change
@@ -34,7 +35,15 @@ pub mod ideal {
     pub broadcast axiom fn ax_r_lits() ensures
         #[trigger] R(0.0f32) == 0real, R(1.0f32) == 1real, R(2.0f32) == 2real, R(3.0f32) == 3real, R(0.5f32) == 0.5real,
         R(-1.0f32) == -1real, R(1_000_000_000.0f32) == 1000000000real;
-    pub broadcast group a3 { ax_r_abs, ax_r_f2i, ax_r_add, ax_r_sub, ax_r_mul, ax_r_div, ax_r_neg, ax_r_i2f, ax_cvt_sign, ax_cvt_mono, ax_r_eq, ax_r_cmp, ax_r_lits }
+    // std float methods / constants an edit may introduce (fstd in f32_axioms.rs): their real-number meaning
+    pub broadcast axiom fn ax_r_clamp(x: f32, lo: f32, hi: f32) requires R(lo) <= R(hi)
+        ensures R(#[trigger] fclamp_spec(x, lo, hi)) == (if R(x) < R(lo) { R(lo) } else if R(x) > R(hi) { R(hi) } else { R(x) });
+    pub broadcast axiom fn ax_r_max(a: f32, b: f32) ensures R(#[trigger] fmax_spec(a, b)) == (if R(a) >= R(b) { R(a) } else { R(b) });
+    pub broadcast axiom fn ax_r_min(a: f32, b: f32) ensures R(#[trigger] fmin_spec(a, b)) == (if R(a) <= R(b) { R(a) } else { R(b) });
+    pub broadcast axiom fn ax_r_eps() ensures R(#[trigger] fconst_spec(0)) == 0.00000011920928955078125real;
+    pub broadcast axiom fn ax_r_recip(a: f32) requires R(a) != 0real ensures R(#[trigger] frecip_spec(a)) == 1real / R(a);
+    pub broadcast axiom fn ax_r_mul_add(a: f32, b: f32, c: f32) ensures R(#[trigger] fmul_add_spec(a, b, c)) == R(a) * R(b) + R(c);
+    pub broadcast group a3 { ax_r_clamp, ax_r_max, ax_r_min, ax_r_eps, ax_r_recip, ax_r_mul_add, ax_r_abs, ax_r_f2i, ax_r_add, ax_r_sub, ax_r_mul, ax_r_div, ax_r_neg, ax_r_i2f, ax_cvt_sign, ax_cvt_mono, ax_r_eq, ax_r_cmp, ax_r_lits }
     pub broadcast group a3_int_exact { ax_cvt_exact }
 }
 use ideal::{R, cvt, secs};
